@@ -17,9 +17,14 @@ def layout(kind, today):
     if kind == "none":    return "%s\n    1h\n\n%s\n    2h\n" % (f(y), f(today))
     if kind == "tomorrow": return "%s\n    <23:00 - ?\n" % f(today + datetime.timedelta(days=1))
     if kind == "old":     return "%s\n    8:00 - ?\n" % f(today - datetime.timedelta(days=2))
+    # files written with the 12-hour clock: the times the commands write follow that style
+    if kind == "today12": return "%s\n    6:00am - ?\n" % f(today)
+    if kind == "yday12":  return "%s\n    10:00pm - ?\n" % f(y)
+    if kind == "both12":  return "%s\n    10:00pm - ? old\n\n%s\n    12:00am - ?\n" % (f(y), f(today))
+    if kind == "none12":  return "%s\n    11:00am - 1:15pm\n\n%s\n    12:00am-12:00pm\n" % (f(y), f(today))
     return ""
 
-LAYOUTS = ["today", "yday", "both", "none", "tomorrow", "old", "empty"]
+LAYOUTS = ["today", "yday", "both", "none", "tomorrow", "old", "empty", "today12", "yday12", "both12", "none12"]
 
 def gen_sweep(tier, rng):
     out = []
@@ -30,7 +35,7 @@ def gen_sweep(tier, rng):
                 if tier == "quick" or day != DAYS[1]:
                     combos = [(rng.choice(["start", "stop", "switch"]), rng.choice(["d", "t", "y", "m", "x"]), rng.choice(LAYOUTS)) for _ in range(2)]
                     if minute >= 1410 or minute < 5:     # the critical end of the day: everything
-                        combos = [(c, s, l) for c in ("start", "stop") for s in ("d", "y", "m") for l in ("today", "yday", "both", "old")]
+                        combos = [(c, s, l) for c in ("start", "stop") for s in ("d", "y", "m") for l in ("today", "yday", "both", "old", "yday12", "none12")]
                 else:
                     combos = [(c, s, l) for c in ("start", "stop", "switch") for s in ("d", "t", "y", "m", "x") for l in LAYOUTS]
                 for cmd, sel, lay in combos:
@@ -93,7 +98,7 @@ def suites():
         Suite("clock-sweep", gen_sweep, oracle=oracle_sweep, decisive=False,
               nontrivial=lambda r, o: "ok:" in o,
               exhaustive=lambda t: False,
-              rule="start / stop / switch without --time at every minute of the day x roundings {none,5,10,12,15,20,30,60} (flag or config) x date selection {default,--today,--yesterday,--tomorrow,--date} x record layouts (open range today / yesterday / both / none / tomorrow / older / empty file); quick: one day, 3 random combinations per (minute, rounding) and the full product for 23:00-0:10; thorough: the full product on the leap day 2020-02-29 and the sampled product on 6 further days (ordinary, month ends, year end/start)"),
+              rule="start / stop / switch without --time at every minute of the day x roundings {none,5,10,12,15,20,30,60} (flag or config) x date selection {default,--today,--yesterday,--tomorrow,--date} x record layouts (open range today / yesterday / both / none / tomorrow / older / empty file; the first four also written with the 12-hour clock); quick: one day, 3 random combinations per (minute, rounding) and the full product for 23:00-0:10; thorough: the full product on the leap day 2020-02-29 and the sampled product on 6 further days (ordinary, month ends, year end/start)"),
         Suite("now-sweep", gen_now, oracle=oracle_now,
               rule="`klog total --now` at every minute for open ranges dated today / yesterday / both / older / future / shifted start",
               nontrivial=lambda r, o: o.startswith("ok")),
